@@ -188,68 +188,65 @@ def rotate_contains(S):
 
 
 # ----------------------------------------------------------------------------- C10 volumes
-@scenario("C10", [UNION + "._get_volume", CUT + "._get_volume", UNIONB + "._get_volume", CUTB + "._get_volume", PROD + "._get_volume", TRANS + ".volume", ROT + ".volume", DOMAIN + ".set_volume", DOMAIN + ".volume"], configs=["union-disjoint", "cut-contained", "union-disjoint-boundary", "cut-contained-boundary", "product-independent", "translate", "rotate", "user-volume"])
+@scenario("C10", [UNION + "._get_volume", CUT + "._get_volume", UNIONB + "._get_volume", CUTB + "._get_volume", PROD + "._get_volume", TRANS + ".volume", ROT + ".volume", DOMAIN + ".set_volume", DOMAIN + ".volume"], configs=["union-disjoint", "cut-contained", "union-disjoint-boundary", "cut-contained-boundary", "product-independent", "translate", "rotate", "user-volume"], history=True)
 def composite_volumes(S):
     """post: additive over disjoint unions, subtractive for contained cuts, multiplicative for independent
     products, unchanged by motions, overridden by set_volume"""
-    sp = S.new(R2, "x")
-    A = abstract_domain(S, "A", sp, {"t": 1})
-    K = S.int("K", 1)
-    Tt = S.tensor("tt", [K, 1])
-    params = S.new(POINTS, Tt, S.new(R1, "t"))
-    va = lambda q: A.Vol(zreal(Tt.val.at([q[0], ()])))
-    if S.cfg in ("union-disjoint-boundary", "cut-contained-boundary"):
-        # the boundary of a disjoint union / of a cut whose removed part is contained is the union of the two boundaries
-        B = abstract_domain(S, "B", sp, {"t": 1})
-        bva = lambda q: A.boundary.Vol(zreal(Tt.val.at([q[0], ()])))
-        bvb = lambda q: B.boundary.Vol(zreal(Tt.val.at([q[0], ()])))
-        inner = S.new(UNION, A.obj, B.obj, disjoint=True) if S.cfg.startswith("union") else S.new(CUT, A.obj, B.obj, contained=True)
-        dom = S.getattr(inner, "boundary")
-        want = lambda q: bva(q) + bvb(q)
-    elif S.cfg in ("union-disjoint", "cut-contained"):
-        B = abstract_domain(S, "B", sp, {"t": 1})
-        vb = lambda q: B.Vol(zreal(Tt.val.at([q[0], ()])))
-        if S.cfg == "union-disjoint":
-            dom = S.new(UNION, A.obj, B.obj, disjoint=True)
-            want = lambda q: va(q) + vb(q)
-        else:
-            dom = S.new(CUT, A.obj, B.obj, contained=True)
-            want = lambda q: va(q) - vb(q)
-    elif S.cfg == "product-independent":
-        B = abstract_domain(S, "B", S.new(R1, "y"), {"t": 1})
-        vb = lambda q: B.Vol(zreal(Tt.val.at([q[0], ()])))
-        dom = S.new(PROD, A.obj, B.obj)
-        want = lambda q: va(q) * vb(q)
-    elif S.cfg == "translate":
-        dom = S.new(TRANS, A.obj, RowFn("tau", ["t"], 2, {"t": 1}))
-        want = va
-    elif S.cfg == "rotate":
-        dom = S.call(S.getattr(S.find(ROT), "from_angles"), A.obj, RowFn("angle", ["t"], 1, {"t": 1}))
-        want = va
-    else:
+    cfg = S.cfg
+
+    def build():
+        sp = S.new(R2, "x")
+        A = abstract_domain(S, "A", sp, {"t": 1})
+        va = lambda t: A.Vol(t)
+        if cfg in ("union-disjoint-boundary", "cut-contained-boundary"):
+            # the boundary of a disjoint union / of a cut whose removed part is contained is the union of the two boundaries
+            B = abstract_domain(S, "B", sp, {"t": 1})
+            inner = S.new(UNION, A.obj, B.obj, disjoint=True) if cfg.startswith("union") else S.new(CUT, A.obj, B.obj, contained=True)
+            return S.getattr(inner, "boundary"), (lambda t: A.boundary.Vol(t) + B.boundary.Vol(t))
+        if cfg in ("union-disjoint", "cut-contained"):
+            B = abstract_domain(S, "B", sp, {"t": 1})
+            if cfg == "union-disjoint":
+                return S.new(UNION, A.obj, B.obj, disjoint=True), (lambda t: va(t) + B.Vol(t))
+            return S.new(CUT, A.obj, B.obj, contained=True), (lambda t: va(t) - B.Vol(t))
+        if cfg == "product-independent":
+            B = abstract_domain(S, "B", S.new(R1, "y"), {"t": 1})
+            return S.new(PROD, A.obj, B.obj), (lambda t: va(t) * B.Vol(t))
+        if cfg == "translate":
+            return S.new(TRANS, A.obj, RowFn("tau", ["t"], 2, {"t": 1})), va
+        if cfg == "rotate":
+            return S.call(S.getattr(S.find(ROT), "from_angles"), A.obj, RowFn("angle", ["t"], 1, {"t": 1})), va
         B = abstract_domain(S, "B", sp, {"t": 1})
         dom = S.new(UNION, A.obj, B.obj)
         uv = RowFn("uservol", ["t"], 1, {"t": 1})
         S.method(dom, "set_volume", uv)
-        want = lambda q: uv.value_terms([zreal(Tt.val.at([q[0], ()]))])[0]
-    v = S.method(dom, "volume", params).val
-    S.ensure("one-value-per-parameter-row", v.rank >= 2 and v.shape[0].size_term() == zint(K) and all(d.is_one for d in v.shape[1:]))
-    S.forall("composition-rule", v, lambda q: v.at(q) == want(q))
+        return dom, (lambda t: uv.value_terms([t])[0])
 
-
-# ----------------------------------------------------------------------------- C18 bounding boxes
-@scenario("C18", [UNION + ".bounding_box", INTER + ".bounding_box", CUT + ".bounding_box", PROD + ".bounding_box"], configs=["union", "intersection", "cut", "product-independent"])
-def composite_bounding_boxes(S):
-    """pre: operand boxes enclose the operands (operand contract).  post: the composite box encloses the
-    composite set for every supplied parameter row, axes in space order"""
-    sp = S.new(R2, "x")
+    dom, want = S.once(build)
     K = S.int("K", 1)
     Tt = S.tensor("tt", [K, 1])
     params = S.new(POINTS, Tt, S.new(R1, "t"))
-    A = abstract_domain(S, "A", sp, {"t": 1})
+    v = S.method(dom, "volume", params).val
+    S.ensure("one-value-per-parameter-row", v.rank >= 2 and v.shape[0].size_term() == zint(K) and all(d.is_one for d in v.shape[1:]))
+    S.forall("composition-rule", v, lambda q: v.at(q) == want(zreal(Tt.val.at([q[0], ()]))))
+
+
+# ----------------------------------------------------------------------------- C18 bounding boxes
+@scenario("C18", [UNION + ".bounding_box", INTER + ".bounding_box", CUT + ".bounding_box", PROD + ".bounding_box"], configs=["union", "intersection", "cut", "product-independent"], history="light")
+def composite_bounding_boxes(S):
+    """pre: operand boxes enclose the operands (operand contract).  post: the composite box encloses the
+    composite set for every supplied parameter row, axes in space order"""
+    K = S.int("K", 1)
+    Tt = S.tensor("tt", [K, 1])
+    params = S.new(POINTS, Tt, S.new(R1, "t"))
     prod = S.cfg == "product-independent"
-    B = abstract_domain(S, "B", S.new(R1, "y") if prod else sp, {"t": 1})
-    dom = S.new(PROD, A.obj, B.obj) if prod else S.new(BOOL[S.cfg][0], A.obj, B.obj)
+
+    def build():
+        sp = S.new(R2, "x")
+        A = abstract_domain(S, "A", sp, {"t": 1})
+        B = abstract_domain(S, "B", S.new(R1, "y") if prod else sp, {"t": 1})
+        return A, B, (S.new(PROD, A.obj, B.obj) if prod else S.new(BOOL[S.cfg][0], A.obj, B.obj))
+
+    A, B, dom = S.once(build)
     box = S.method(dom, "bounding_box", params).val
     nd = 3 if prod else 2
     ok = box.rank == 1 and box.shape[0].concrete() == 2 * nd
@@ -1199,7 +1196,7 @@ for _prop in ("C01", "C02"):
     scenario(_prop, [UNION + ".sample_grid", UNION + "._sample_grid_with_n", UNION + "._sample_in_b", UNION + "._points_lay_in_other_domain", UNION + "._get_volume"], configs=["none", "1"])(_kug)
 
 
-@scenario("C06", [UNIONB + ".normal", CUTB + ".normal", INTERB + ".normal", "torchphysics.problem.domains.domain.BoundaryDomain._transform_input_for_normals"], configs=["union", "cut", "intersection"])
+@scenario("C06", [UNIONB + ".normal", CUTB + ".normal", INTERB + ".normal", "torchphysics.problem.domains.domain.BoundaryDomain._transform_input_for_normals"], configs=["union", "cut", "intersection"], history=True)
 def boolean_boundary_normal(S):
     """normal() of the boundary of a Boolean operation over ABSTRACT operands (operand contract: the operand's normal
     field n_X(x, p) is a unit vector at every row): one row per point; at a point on the boundary of A the result is
@@ -1207,10 +1204,9 @@ def boolean_boundary_normal(S):
     the removed part are flipped); the result is a unit vector.  That n_A / +-n_B is the outward direction of the
     composite set at such a point is the locality argument A7 (not mechanised; ill-defined where both boundaries meet)."""
     op = S.cfg
-    A, B, dom = mk_bool(S, op)
+    A, B, dom, bd = S.once(lambda: (lambda A, B, dom: (A, B, dom, S.getattr(dom, "boundary")))(*mk_bool(S, op)))
     N = S.int("N", 1)
     X, pts, params, pv = point_rows(S, N)
-    bd = S.getattr(dom, "boundary")
     res = S.method(bd, "normal", pts, params).val
     ok = res.rank == 2 and res.shape[1].concrete() == 2
     S.ensure("one-row-per-point-two-components", ok and res.shape[0].size_term() == zint(N))
@@ -1270,18 +1266,18 @@ def translate_bounding_box(S):
     S.ensure("encloses-the-translated-domain", z3.Implies(A.in_pred(y, p), z3.And([z3.And(b[2 * i] <= x[i], x[i] <= b[2 * i + 1]) for i in range(2)])), hy + [A.box_fact(y, p)])
 
 
-@scenario("C18", [ROT + ".bounding_box"], configs=["angle-const/none", "pivot-const/none"])
+@scenario("C18", [ROT + ".bounding_box"], configs=["angle-const/none", "pivot-const/none"], history=True)
 def rotate_bounding_box(S):
     """post: encloses the rotated domain (the image of the inner box under the rotation)"""
-    A = abstract_domain(S, "A", S.new(R2, "x"))
-    a0 = S.real("angle0")
-    if S.cfg.startswith("pivot"):
-        piv = [S.real("pivot0"), S.real("pivot1")]
-        dom = S.call(S.getattr(S.find(ROT), "from_angles"), A.obj, a0, rotate_around=list(piv))
-        pv = [p_.t for p_ in piv]
-    else:
-        dom = S.call(S.getattr(S.find(ROT), "from_angles"), A.obj, a0)
-        pv = [z3.RealVal(0), z3.RealVal(0)]
+    def build():
+        A = abstract_domain(S, "A", S.new(R2, "x"))
+        a0 = S.real("angle0")
+        if S.cfg.startswith("pivot"):
+            piv = [S.real("pivot0"), S.real("pivot1")]
+            return A, a0, S.call(S.getattr(S.find(ROT), "from_angles"), A.obj, a0, rotate_around=list(piv)), [p_.t for p_ in piv]
+        return A, a0, S.call(S.getattr(S.find(ROT), "from_angles"), A.obj, a0), [z3.RealVal(0), z3.RealVal(0)]
+
+    A, a0, dom, pv = S.once(build)
     box = S.method(dom, "bounding_box").val
     ok = box.rank == 1 and box.shape[0].concrete() == 4
     S.ensure("flat-2dim-vector", ok)
